@@ -3,7 +3,8 @@ import Knut.FactsAgree.TransBalanceCmd
 /-!
 # `knut balance`: `j.Build().Process(check, ComputePrices, Valuate, Filter, CloseAccounts, Query.Into)` over a WHOLE journal
 
-The processor list is the one `cmd/commands/balance.go` builds (`TransBalanceCmd.processors_pinned`, `processorOrder_pinned`).
+The processor list is the one `cmd/commands/balance.go` builds (`TransBalanceCmd.processors_pinned`, `processorOrder_pinned`; the order
+and the way the slice reaches `Process` are also pinned by `FactsAgree/ProcOrderBalance`, `ProcOrder.balanceOrder_eq`).
 `processAllBalance` is its sequential meaning: `Pipeline.seqRun` of the system `balanceSys` — six stages, stage `k` = the translated
 closures of the `k`-th processor folded over a day by `Processor.Process` (`TransProcess.processDay`), working on its own field of the
 record `BalGo` of captured states; a nil processor (`ComputePrices(nil)`, `Valuate(reg, nil)`, `CloseAccounts(…, false, …)`) is the identity
